@@ -54,7 +54,7 @@ def gen_problem(rnd, hermitian=True):
         return m
     terms = {(0,) * k: [[E[a] if a == b else (Fraction(0), Fraction(0)) for b in range(d)] for a in range(d)]}
     for n in itertools.product(range(3), repeat=k):
-        if 0 < sum(n) <= 2 and rnd.random() < 0.7: terms[n] = mat()
+        if 0 < sum(n) <= 2 and (rnd.random() < 0.7 or (k >= 2 and n == (1,) * k)): terms[n] = mat()      # with several parameters a mixed order is always there
     mode = rnd.choice(["none", "tuple", "dict"])
     fd = {"kind": "none"}; fd_py = ()
     off = [0]
@@ -409,7 +409,7 @@ def main(seed, ncases, driver, out, mode="all"):
         rnd.shuffle(reqs)
         t0 = time.time()
         try:
-            P["as_polynomial"] = rnd.random() < 0.3
+            P["as_polynomial"] = rnd.random() < (0.3 if P["k"] == 1 else 0.5)
             if P["as_polynomial"]: stats["exact run given as one SymPy polynomial matrix"] = stats.get("exact run given as one SymPy polynomial matrix", 0) + 1
             layout = interleave(P, rnd) if rnd.random() < 0.5 else None
             if layout is not None: stats["interleaved subspace_indices (exact run)"] = stats.get("interleaved subspace_indices (exact run)", 0) + 1
